@@ -70,6 +70,22 @@ def parserOp : List String → Option String
     let cs ← parseCuts cuts
     let (_, line) := oneMessage (init kind (← mx.toNat?)) msg cs
     if line.contains 'U' && (line.splitOn " | ").head!.contains 'U' then pure "unspecified" else pure line
+  | ["pmem", _, _, _, _] => some "unspecified"
+  | ["hlookup", hm, names] => do
+    let msg ← fromHex hm
+    let (p', outs, o) := runSegs (init .request 65536) [msg] []
+    match o with
+    | .done =>
+      let qs ← (names.splitOn ",").mapM fromHex
+      let parts := qs.map fun (q : List Nat) =>
+        let raw := (p'.msg.raw.find? fun (pr : List Nat × List Nat) => pr.1.map Stream.lower = q.map Stream.lower).map (·.2)
+        let typed := match Headers.canonOf q with
+          | some c => p'.msg.typed.any (fun (pr : String × List Nat) => pr.1 == c)
+          | none => false
+        (match raw with | some v => toHex v | none => "~") ++ (if typed then "/T" else "/-")
+      pure ("ok " ++ " ".intercalate parts)
+    | .unspec => pure "unspecified"
+    | _ => pure (outs.getLastD "A")
   | "seq" :: k :: mx :: items => do
     let kind ← kindOf k
     let mxn ← mx.toNat?
